@@ -192,6 +192,12 @@ def execute(case):
         except SystemExit:
             import sys as _sys
             site = host.exit_site(_sys.exc_info()[2])
+            if case.get("eof_at") is not None:
+                # EOF inside a statement whose construct name has been read: the reader calls
+                # sys.exit (C06's known finding); C12 leaves the cut statement unconstrained
+                return {"events": [["exit-on-truncated-statement", site]], "violations": [],
+                        "stats": stats, "nontrivial": False, "state_keys": [],
+                        "discarded": "exit-on-truncated-statement"}
             violate("C12.a reader-terminates-process", site, {"lines": case["lines"][:40]})
             events.append(["exit", site])
             return {"events": events, "violations": violations, "stats": stats,
